@@ -427,6 +427,9 @@ func (repo *GoGitRepo) FetchRefs(remote string, prefixes ...string) (string, err
 		RemoteName: remote,
 		RefSpecs:   refSpecs,
 		Progress:   buf,
+		// only what the refspecs name: by default go-git also creates a local refs/tags/<name> for
+		// every remote tag whose target object is already here
+		Tags: gogit.NoTags,
 	})
 	if err == gogit.NoErrAlreadyUpToDate {
 		return "already up-to-date", nil
